@@ -1506,7 +1506,14 @@ func (client *client) pollMessageHandler() {
 
 //server goroutine结束的条件:1客户端断开连接 或 2发生错误
 func (client *client) serve() {
-	defer client.internalClose()
+	defer func() {
+		client.internalClose()
+		if srv := client.server; srv != nil {
+			srv.connsMu.Lock()
+			delete(srv.conns, client)
+			srv.connsMu.Unlock()
+		}
+	}()
 	readWg := &sync.WaitGroup{}
 
 	readWg.Add(1)
